@@ -5,7 +5,7 @@
 // the phrase's terms) and keeps those of its matches whose term positions form the phrase. Proved:
 // Next / Advance / advanceNextMust / initSearchers only make calls on the child that satisfy the
 // Searcher contract (forward targets only), nothing panics, the ids returned are ids of the child's
-// matches in strictly ascending order, Advance lands at or after its target, and a match handed to
+// matches in strictly ascending order, Advance lands at or after its target, a match handed to
 // the caller is never put back into the pool. The phrase check itself (checkCurrMustMatch: term
 // positions per field and array element) is NOT under contract: its contract is trusted.
 
@@ -14,61 +14,87 @@ package searcher
 // the child and its current match (nil once the child is exhausted, or when the current match has
 // been handed to the caller)
 //@ spec phraseSlot(s *PhraseSearcher) bool = implies(s.mustSearcher == nil, s.currMust == nil) && implies(s.mustSearcher != nil, s.mustSearcher != s) && \
-//@     implies(s.mustSearcher != nil && s.currMust != nil, s.mustSearcher.started && !s.mustSearcher.done && s.mustSearcher.last == dmKey(s.currMust) && len(s.currMust.IndexInternalID) > 0) && \
+//@     implies(s.mustSearcher != nil && s.currMust != nil, s.mustSearcher.started && !s.mustSearcher.done && s.mustSearcher.last == dmKey(s.currMust) && len(s.currMust.IndexInternalID) > 0 && mset(s.mustSearcher, dmKey(s.currMust))) && \
 //@     implies(s.mustSearcher != nil && !s.initialized, s.currMust == nil && !s.mustSearcher.started && !s.mustSearcher.done && !s.started)
 // every id the child has still to deliver, and its current match, lie beyond the last id returned
 //@ spec phraseAhead(s *PhraseSearcher) bool = implies(s.started && s.mustSearcher != nil && s.mustSearcher.started, s.mustSearcher.last >= s.last) && implies(s.started && s.currMust != nil, dmKey(s.currMust) > s.last)
 //@ spec phraseInv(s *PhraseSearcher) bool = phraseSlot(s) && phraseAhead(s)
+// ---- set level: a phrase searcher accepts the child's matches that pass the phrase check ----
+// phraseOK(s, x): the document with id x passes the check (abstract: what the check computes from the
+// term positions is not under contract; the trusted contract of checkCurrMustMatch ties its
+// outcome to this predicate)
+//@ uf phraseOK(s *PhraseSearcher, x string) bool
+//@ spec phraseAccepts(s *PhraseSearcher, x string) bool = s.mustSearcher != nil && mset(s.mustSearcher, x) && phraseOK(s, x)
+//@ ghostfield PhraseSearcher.lbset bool
+//@ ghostfield PhraseSearcher.lb string
+//@ spec phraseTodo(s *PhraseSearcher, x string) bool = unconsumed(s.started, s.last, x) && implies(s.lbset, x >= s.lb)
+// every accepted id still to be delivered lies at or after the child's current match; none when the child is exhausted
+//@ spec phraseSet(s *PhraseSearcher) bool = implies(s.initialized, all(x, string, implies(phraseAccepts(s, x) && phraseTodo(s, x), s.currMust != nil && x >= dmKey(s.currMust))))
 
 // The phrase check: the current match is either kept (and stays the current match) or handed out
 // (currMust becomes nil); its id is not touched.
 //@ func PhraseSearcher.checkCurrMustMatch
-//@   props C08
+//@   props C08 C02
 //@   mode int
 //@   trusted the phrase check (term positions per field and array element, map iteration, recursion in findPhrasePaths) is not under contract
 //@   requires s != nil && s.currMust != nil
 //@   modifies s.currMust, s.locations, s.path, s.paths, s.currMust.Locations, s.currMust.FieldTermLocations, mem(search.Location)
 //@   ensures (result == nil && s.currMust == old(s.currMust)) || (result == old(s.currMust) && s.currMust == nil)
+//@   ensures (result != nil) == phraseOK(s, old(dmKey(s.currMust)))
 
 //@ func PhraseSearcher.advanceNextMust
-//@   props C08
+//@   props C08 C02
 //@   mode int
 //@   requires s != nil && ctx != nil && ctx.DocumentMatchPool != nil && phraseSlot(s) && implies(s.initialized && s.mustSearcher != nil && s.currMust == nil, true)
 //@   modifies s.currMust, *s.currMust, search.DocumentMatchPool.avail, mem(*search.DocumentMatch), s.mustSearcher.started, s.mustSearcher.last, s.mustSearcher.done
-//@   ensures implies(result == nil && s.mustSearcher != nil, implies(s.currMust != nil, s.mustSearcher.started && !s.mustSearcher.done && s.mustSearcher.last == dmKey(s.currMust) && len(s.currMust.IndexInternalID) > 0 && unconsumed(old(s.mustSearcher.started), old(s.mustSearcher.last), dmKey(s.currMust))) && \
+//@   ensures implies(result == nil && s.mustSearcher != nil, implies(s.currMust != nil, s.mustSearcher.started && !s.mustSearcher.done && s.mustSearcher.last == dmKey(s.currMust) && len(s.currMust.IndexInternalID) > 0 && mset(s.mustSearcher, dmKey(s.currMust)) && unconsumed(old(s.mustSearcher.started), old(s.mustSearcher.last), dmKey(s.currMust))) && \
 //@             implies(s.currMust == nil, s.mustSearcher.done && s.mustSearcher.started == old(s.mustSearcher.started) && s.mustSearcher.last == old(s.mustSearcher.last)))
 //@   ensures implies(s.mustSearcher == nil, s.currMust == old(s.currMust))
+// set level: whatever the child matches beyond its cursor lies at or after its new match
+//@   ensures implies(result == nil && s.mustSearcher != nil, all(x, string, implies(mset(s.mustSearcher, x) && unconsumed(old(s.mustSearcher.started), old(s.mustSearcher.last), x), s.currMust != nil && x >= dmKey(s.currMust))))
 
 //@ func PhraseSearcher.initSearchers
-//@   props C08
+//@   props C08 C02
 //@   mode int
 //@   requires s != nil && ctx != nil && ctx.DocumentMatchPool != nil && !s.initialized && phraseInv(s)
 //@   modifies s.initialized, s.currMust, fields(search.DocumentMatch), search.DocumentMatchPool.avail, mem(*search.DocumentMatch), s.mustSearcher.started, s.mustSearcher.last, s.mustSearcher.done
-//@   ensures implies(result == nil, s.initialized && phraseInv(s))
+//@   ensures implies(result == nil, s.initialized && phraseInv(s) && phraseSet(s))
 
 // Next: the child's matches are checked one after the other; the first that forms the phrase is returned
 //@ func PhraseSearcher.Next
-//@   props C08
+//@   props C08 C02
 //@   mode int
-//@   requires s != nil && ctx != nil && ctx.DocumentMatchPool != nil && phraseInv(s)
-//@   modifies fields(PhraseSearcher), mem(search.Location), fields(search.DocumentMatch), search.DocumentMatchPool.avail, mem(*search.DocumentMatch), search.Searcher.started, search.Searcher.last, search.Searcher.done
+//@   requires s != nil && ctx != nil && ctx.DocumentMatchPool != nil && phraseInv(s) && phraseSet(s) && implies(!s.initialized, !s.lbset)
+//@   modifies s.lbset, fields(PhraseSearcher), mem(search.Location), fields(search.DocumentMatch), search.DocumentMatchPool.avail, mem(*search.DocumentMatch), search.Searcher.started, search.Searcher.last, search.Searcher.done
 //@   at return: ghost s.started = s.started || (result1 == nil && result0 != nil)
 //@   at return: ghost s.last = ite(result1 == nil && result0 != nil, dmKey(result0), s.last)
-//@   ensures implies(result1 == nil, phraseInv(s) && s.initialized) && s.mustSearcher == old(s.mustSearcher)
+//@   at return: ghost s.lbset = false
+//@   ensures implies(result1 == nil, phraseInv(s) && s.initialized) && s.mustSearcher == old(s.mustSearcher) && !s.lbset
+//@   ensures implies(result1 == nil && result0 != nil, phraseSet(s))
+// set level: the least accepted id still to be delivered; nil: none is left
+//@   ensures implies(result1 == nil && result0 != nil, phraseAccepts(s, dmKey(result0)) && all(x, string, implies(phraseAccepts(s, x) && unconsumed(old(s.started), old(s.last), x) && implies(old(s.lbset), x >= old(s.lb)), x >= dmKey(result0))))
+//@   ensures implies(result1 == nil && result0 == nil, all(x, string, !(phraseAccepts(s, x) && unconsumed(old(s.started), old(s.last), x) && implies(old(s.lbset), x >= old(s.lb)))))
 //@   ensures implies(result1 == nil && result0 != nil, ascending(old(s.started), old(s.last), result0) && s.started && s.last == dmKey(result0) && implies(old(s.initialized) && old(s.currMust) != nil, dmKey(result0) >= old(dmKey(s.currMust))))
 //@   ensures implies(result0 == nil, s.started == old(s.started) && s.last == old(s.last))
 //@   ensures implies(old(s.initialized) && old(s.currMust) == nil, result0 == nil)
 //@   loop 0: invariant s.initialized && phraseInv(s) && ctx.DocumentMatchPool != nil && s.mustSearcher == old(s.mustSearcher) && s.started == old(s.started) && s.last == old(s.last)
 //@   loop 0: invariant implies(old(s.initialized) && old(s.currMust) != nil && s.currMust != nil, dmKey(s.currMust) >= old(dmKey(s.currMust)))
 //@   loop 0: invariant implies(old(s.initialized) && old(s.currMust) == nil, s.currMust == nil)
+//@   loop 0: invariant phraseSet(s) && s.lbset == old(s.lbset) && s.lb == old(s.lb)
 
 // Advance: the child is advanced to the target when it is behind it
 //@ func PhraseSearcher.Advance
-//@   props C08
+//@   props C08 C02
 //@   mode int
-//@   requires s != nil && ctx != nil && ctx.DocumentMatchPool != nil && phraseInv(s) && unconsumed(s.started, s.last, idKey(ID))
-//@   modifies fields(PhraseSearcher), mem(search.Location), fields(search.DocumentMatch), search.DocumentMatchPool.avail, mem(*search.DocumentMatch), search.Searcher.started, search.Searcher.last, search.Searcher.done
+//@   requires s != nil && ctx != nil && ctx.DocumentMatchPool != nil && phraseInv(s) && phraseSet(s) && unconsumed(s.started, s.last, idKey(ID)) && !s.lbset
+//@   at entry: ghost s.lbset = true
+//@   at entry: ghost s.lb = idKey(ID)
+//@   modifies s.lbset, s.lb, fields(PhraseSearcher), mem(search.Location), fields(search.DocumentMatch), search.DocumentMatchPool.avail, mem(*search.DocumentMatch), search.Searcher.started, search.Searcher.last, search.Searcher.done
 //@   at return: ghost s.started = s.started || (result1 == nil && result0 != nil)
 //@   at return: ghost s.last = ite(result1 == nil && result0 != nil, dmKey(result0), s.last)
 //@   ensures implies(result1 == nil, phraseInv(s) && s.initialized)
+//@   ensures implies(result1 == nil && result0 != nil, phraseSet(s))
+// set level: the least accepted id at or after the target; nil: there is none
+//@   ensures implies(result1 == nil && result0 != nil, phraseAccepts(s, dmKey(result0)) && all(x, string, implies(phraseAccepts(s, x) && x >= idKey(ID), x >= dmKey(result0))))
+//@   ensures implies(result1 == nil && result0 == nil, all(x, string, implies(phraseAccepts(s, x), x < idKey(ID))))
 //@   ensures implies(result1 == nil && result0 != nil, dmKey(result0) >= idKey(ID) && ascending(old(s.started), old(s.last), result0) && s.started && s.last == dmKey(result0))
